@@ -95,6 +95,9 @@ func blankWSLines(s string) string {
 
 var reURLAttr = regexp.MustCompile(`(href|src)="[^"]*"`)
 
+// a numeric character reference to '&' (the other way to put an '&' in front of text that then reads as a reference)
+var reAmpRef = regexp.MustCompile(`&#0*38;|&#[xX]0*26;`)
+
 // classify: cause signatures of the two recorded findings.
 //
 //	F19: inside a list item, a code-block line made only of spaces/tabs loses
@@ -102,7 +105,8 @@ var reURLAttr = regexp.MustCompile(`(href|src)="[^"]*"`)
 //	     are blanked, and the source has such a line below a list marker.
 //	F20: a backslash-escaped '&' in a link destination is unescaped and then
 //	     resolved as the start of a character reference: the outputs differ
-//	     only inside href/src values and the source contains '\&'.
+//	     only inside href/src values and the source contains '\&' (F20b: or a
+//	     numeric reference to '&', which reaches the same three-pass decoding).
 func classify(c *kit.Case, err error) string {
 	v, ok := err.(*kit.Violation)
 	if ok && v.Code == "final-line-ending-matters" {
@@ -120,7 +124,10 @@ func classify(c *kit.Case, err error) string {
 		regexp.MustCompile(`(?m)^[ \t>]*[ \t]$`).MatchString(src) {
 		return "F19"
 	}
-	if strings.Contains(src, "\\&") && reURLAttr.ReplaceAllString(got, "$1") == reURLAttr.ReplaceAllString(want, "$1") {
+	if (strings.Contains(src, "\\&") || reAmpRef.MatchString(src)) && reURLAttr.ReplaceAllString(got, "$1") == reURLAttr.ReplaceAllString(want, "$1") {
+		if !strings.Contains(src, "\\&") {
+			return "F20b"
+		}
 		return "F20"
 	}
 	return ""
